@@ -85,8 +85,11 @@ def _start_end(draw):
 
 @st.composite
 def _high_low(draw):
-    lo = draw(st.one_of(st.none(), st.floats(-5, 300), st.integers(0, 300).map(float)))
-    hi = draw(st.one_of(st.none(), st.floats(10, 1100), st.integers(10, 1100).map(float)))
+    # thresholds: fractional, whole (as float or as int), and whole numbers that the events' own integer type cannot
+    # hold (below 0, beyond 16 or 32 bits): a threshold is a number, whatever the events are stored as
+    lo = draw(st.one_of(st.none(), st.floats(-5, 300), st.integers(0, 300).map(float), st.sampled_from([-1, -1.0, -300, 0, 0.0])))
+    hi = draw(st.one_of(st.none(), st.floats(10, 1100), st.integers(10, 1100).map(float),
+                        st.sampled_from([65536, 65536.0, 4294967296, 1e10, 70000])))
     c = draw(_container([t for t in (lo, hi) if t is not None]))
     D = c['D']
     form = draw(st.sampled_from(['none', 'int', 'name', 'list', 'list1']))
